@@ -85,6 +85,7 @@ N_RANDOM = {'quick': 400, 'thorough': 2000}
 N_LARGE = {'quick': 64, 'thorough': 300}
 DRAWS = {'quick': 6, 'thorough': 16}
 BRUTE_EVERY = {'quick': 6, 'thorough': 5}
+VALIDATE_FORECAST_EVERY = {'quick': 8, 'thorough': 8}
 N_HISTORY = {'quick': 96, 'thorough': 480}
 HISTORY_DRAWS = {'quick': 3, 'thorough': 6}
 # A = the data set of the specification, B / C = other values in the same rows, P = A with its rows rotated,
@@ -109,9 +110,11 @@ def cases(seed, tier):
             for outside in (False, True):
                 for lab in g.LABELINGS:
                     out.append({'mode': 'strat', 'seed': seed, 'i': i, 'variant': v, 'outside': outside, 'labeling': lab,
-                                'tol': 'default' if (i + rep) % 2 else 'tight', 'tier': tier})
+                                'tol': 'default' if (i + rep) % 2 else 'tight', 'tier': tier,
+                                'index': g.INDEX_STYLES[(i // 3 + rep) % len(g.INDEX_STYLES)] if i % 3 else 'default'})
                     i += 1
-    out += [{'mode': 'random', 'seed': seed, 'i': i, 'tol': 'default' if i % 2 else 'tight', 'tier': tier} for i in range(N_RANDOM[tier])]
+    out += [{'mode': 'random', 'seed': seed, 'i': i, 'tol': 'default' if i % 2 else 'tight', 'tier': tier,
+             'index': g.INDEX_STYLES[(i // 2) % len(g.INDEX_STYLES)] if i % 4 < 3 else 'default'} for i in range(N_RANDOM[tier])]
     out += [{'mode': 'large', 'seed': seed, 'i': i, 'variant': g.VARIANTS[i % 4], 'tol': 'tight' if i % 3 else 'default', 'tier': tier}
             for i in range(N_LARGE[tier])]
     # histories on ONE model object: data set A, then other data sets / the same rows permuted / A again, with
@@ -143,16 +146,20 @@ def spec_of(case):
 
     draws = DRAWS[case.get('tier', 'quick')]
     m = case['mode']
+    rows = None
+    if case.get('index', 'default') != 'default':
+        rows = 2 + case['i'] % 3  # an index style only matters with several observations
+        draws = max(3, draws * 2 // (rows + 1))
     if m == 'directed':
         return g.directed()[case['k']]
     if m == 'strat':
         return g.make_spec(case['seed'], 100000 + case['i'], variant=case['variant'], outside=case['outside'],
-                           labeling=case['labeling'], draws=draws)
+                           labeling=case['labeling'], draws=draws, rows=rows)
     if m == 'large':
         rnd = random.Random(f'c18-large-{case["seed"]}-{case["i"]}')
         return g.make_spec(case['seed'], 200000 + case['i'], variant=case['variant'],
                            budget=float('%.4g' % (10 ** rnd.uniform(4, 7))), draws=draws)
-    return g.make_spec(case['seed'], case['i'], draws=draws)
+    return g.make_spec(case['seed'], case['i'], draws=draws, rows=rows)
 
 
 # ---------------------------------------------------------------------------
@@ -550,6 +557,137 @@ def check_frames_against_log(cx, spec, model, frames, entries, eps, tag, which, 
     return True
 
 
+def check_row_split(cx, spec, db, tag, which):
+    """Database.mdcev_row_split: one-row databases in the order of the rows (position), whatever the index labels"""
+    rec = cx.rec
+    R = len(spec['eps'])
+    try:
+        rows = db.mdcev_row_split()
+    except BaseException as e:  # noqa
+        cx.viol(f'mdcev_row_split-raises-{type(e).__name__}', f'{which}: {type(e).__name__}: {e} (index labels {list(db.data.index)})', tag)
+        return None
+    rec.ev()
+    rec.c('row_split_checked')
+    if len(rows) != R:
+        cx.viol('mdcev_row_split-number-of-rows-wrong', f'{which}: {len(rows)} one-row databases for {R} observations', tag)
+        return None
+    for r, row in enumerate(rows):
+        want = {c: float(spec['data'][c][r]) for c in spec['data']}
+        try:
+            got = {c: float(row.data[c].iloc[0]) for c in want} if len(row.data) == 1 else None
+        except BaseException:  # noqa
+            got = None
+        if got != want:
+            cx.viol('mdcev_row_split-row-is-not-the-observation-at-that-position',
+                    f'{which}: entry {r} holds {got} but the {r}-th row of the frame is {want} (index labels {list(db.data.index)})', tag)
+            return None
+    return rows
+
+
+def check_entries_against_direct(cx, spec, frames, direct, entries, tag, which):
+    """entry (i, d) of Mdcev.forecast is the forecast of the i-th observation (position) for draw d: it agrees with
+    forecast_bisection_one_draw on that observation with the same draw"""
+    rec = cx.rec
+    B = spec['budget']
+    allow = RELABEL_RTOL * B
+    for e in entries:
+        if 'meas' in e:
+            allow = max(allow, 4 * e['meas'].get('budget_relerr', 0.0) * B)
+    for (r, d), res in direct.items():
+        rec.ev()
+        rec.c('forecast_entries_compared_with_per_draw_call')
+        try:
+            worst = max(abs(float(frames[r][l].iloc[d]) - float(res[l])) for l in spec['labels'])
+        except BaseException:  # noqa
+            worst = math.inf
+        if not worst <= allow:
+            cx.viol('forecast-entry-differs-from-per-draw-forecast-of-the-observation-at-that-position',
+                    f'{which}: entry ({r}, draw {d}) of forecast = { {l: float(frames[r][l].iloc[d]) for l in spec["labels"]} } but '
+                    f'forecast_bisection_one_draw on the {r}-th observation with the same draw = { {l: float(res[l]) for l in spec["labels"]} }',
+                    tag, row=r, draw=d)
+            return
+
+
+def check_validate_forecast(cx, spec, model, db, eps, tag, which):
+    """Mdcev.validate_forecast (comparison of the two algorithms, first draw of each observation): runs on a
+    legitimate model, hands the observations over by position, and its warning about different optimal utilities is
+    not raised when the two solutions it compares have the same utility"""
+    import logging
+
+    from ..oracle import c18_contract as C
+    from ..oracle import c18_kkt as K
+
+    rec = cx.rec
+    itk = list(model.index_to_key)
+    otag = tag + ('-position-order-differs-from-sorted-labels' if itk != sorted(itk) else '')
+    records = []
+
+    class H(logging.Handler):
+        def emit(self, record):
+            records.append(record.getMessage())
+
+    lg = logging.getLogger('biogeme.mdcev.mdcev')
+    h = H(level=logging.WARNING)
+    old_level = lg.level
+    lg.addHandler(h)
+    lg.setLevel(logging.WARNING)
+    C.reset()
+    try:
+        with warnings.catch_warnings():
+            warnings.simplefilter('ignore')
+            model.validate_forecast(database=db, total_budget=spec['budget'], epsilons=[e[:1] for e in eps])
+        ok = True
+    except BaseException as e:  # noqa
+        ok = False
+        cx.viol(f'validate_forecast-raises-{type(e).__name__}', f'{which}: Mdcev.validate_forecast raised {type(e).__name__}: {e} '
+                f'(index_to_key {itk}, outside good {spec["outside"]})', otag, index_to_key=itk)
+    finally:
+        lg.removeHandler(h)
+        lg.setLevel(old_level)
+    log = list(C.LOG)
+    rec.ev()
+    rec.c('validate_forecast_runs')
+    if not ok:
+        return
+    absorb_log(cx, spec, log, tag, which + ' (inside validate_forecast)', count=False, model=model)
+    R = len(spec['eps'])
+    if len(log) != R:
+        cx.viol('validate_forecast-number-of-per-draw-calls-wrong', f'{which}: {len(log)} per-draw calls for {R} observations x 1 draw', tag)
+        return
+    for r, e in enumerate(log):
+        want = {c: float(spec['data'][c][r]) for c in spec['data']}
+        if {c: e['rowvals'].get(c) for c in want} != want or e['eps'] != [float(v) for v in eps[r][0]]:
+            cx.viol('validate_forecast-row-or-draw-handed-over-is-not-that-of-the-observation',
+                    f'{which}: observation {r}: per-draw call saw row {e["rowvals"]} draw {e["eps"]}', tag)
+            return
+    # spurious warning: recompute the two solutions the method compares and their utilities with the closed forms
+    spurious = [m for m in records if 'Difference between optimal utility' in m]
+    if spurious:
+        rec.c('validate_forecast_utility_warnings')
+        same = 0
+        for r in range(R):
+            try:
+                with warnings.catch_warnings():
+                    warnings.simplefilter('ignore')
+                    row = db.mdcev_row_split()[r]
+                    bf = model.forecast_bruteforce_one_draw(one_row_database=row, total_budget=spec['budget'], epsilon=np.array(eps[r][0], dtype=float))
+                if bf is None or not isinstance(log[r]['result'], dict):
+                    continue
+                goods = K.goods_of(spec, r, spec['eps'][r][0])
+                if spec['outside'] is not None and not bf[spec['outside']] > 0:
+                    continue
+                ub = K.total_utility(goods, {l: max(float(bf[l]), 0.0) for l in spec['labels']})
+                ua = K.total_utility(goods, {l: max(float(log[r]['result'][l]), 0.0) for l in spec['labels']})
+                if np.isclose(ua, ub, rtol=1e-7, atol=1e-9):
+                    same += 1
+            except BaseException:  # noqa
+                continue
+        if same == R:
+            cx.viol('validate_forecast-warns-about-different-utilities-of-solutions-with-equal-utility',
+                    f'{which}: {spurious[0][:200]} -- while the two solutions have the same total utility for every observation '
+                    f'(index_to_key {itk})', otag, index_to_key=itk)
+
+
 def check_library_kkt(cx, spec, model, tag, which, row_db, eps_vec, got, goods):
     """the library's own pieces at its own forecast: derivative_utility_one_alternative and central
     differences of utility_one_alternative are equal over consumed goods"""
@@ -788,6 +926,13 @@ def run_history(case):
                             generic=True, row=r)
             continue
         data = datasets[step]
+        hstyle = rnd.choice(g.INDEX_STYLES)
+        try:
+            db, data, _labels = g.routed_database(data, hstyle, rnd, 'c18hist')
+            rec.c('index_style_' + hstyle)
+        except BaseException as e:  # noqa
+            rec.c('index_route_failed_' + hstyle + '_' + type(e).__name__)
+            db = None
         sp = dict(cur, data=data)
         cx = Ctx(rec, sp)
         cx.per_mech = per_mech
@@ -800,7 +945,8 @@ def run_history(case):
         import pandas as pd
         from biogeme.database import Database
 
-        db = Database('c18hist', pd.DataFrame({c: [float(x) for x in data[c]] for c in data}))
+        if db is None:
+            db = Database('c18hist', pd.DataFrame({c: [float(x) for x in data[c]] for c in data}))
         frames, entries, eps = run_forecast(cx, sp, model, db, htag, which, tol)
         judged += absorb_log(cx, sp, entries, htag, which, model=model)
         ok_frames = frames is not None and check_frames_against_log(cx, sp, model, frames, entries, eps, htag, which, tol)
@@ -875,8 +1021,20 @@ def run_case(case):
         return run_history(case)
     rec = Rec(case)
     spec = spec_of(case)
-    cx = Ctx(rec, spec)
     rnd = random.Random(f'c18-run-{stable_hash(case)}')
+    # the data set as a user gets it: frame index style produced through a public route; observation i = i-th row
+    style = case.get('index', 'default')
+    db_routed, index_labels = None, None
+    try:
+        db_routed, data_pos, index_labels = g.routed_database(spec['data'], style, random.Random(f'c18-idx-{stable_hash(case)}'))
+        spec = dict(spec, data=data_pos)
+        rec.c('index_style_' + style)
+        if index_labels != [str(j) for j in range(len(index_labels))]:
+            rec.c('index_labels_differ_from_positions')
+    except BaseException as e:  # noqa  (a route the library does not offer for this frame: counted, not judged)
+        rec.c('index_route_failed_' + style + '_' + type(e).__name__)
+        style = 'default'
+    cx = Ctx(rec, spec)
     tol = spec.get('force_tol') or case.get('tol', 'default')
     B = spec['budget']
     R, D = len(spec['eps']), len(spec['eps'][0])
@@ -887,12 +1045,18 @@ def run_case(case):
     except BaseException as e:  # noqa
         cx.viol(f'constructor-raises-{type(e).__name__}', f'{e}')
         return rec.out()
+    if db_routed is not None:
+        db = db_routed
     sigma, order = g.random_bijection(rnd, spec['labels'])
     spec_b = g.relabel(spec, sigma, order)
     cxb = Ctx(rec, spec_b)
     cxb.per_mech = cx.per_mech
     try:
         model_b, db_b = g.build(spec_b, 'b')
+        if db_routed is not None:
+            from biogeme.database import Database as _Db
+
+            db_b = _Db('c18idxb', db_routed.data.copy())
     except BaseException as e:  # noqa
         cxb.viol(f'constructor-raises-{type(e).__name__}', f'relabelled: {e}')
         model_b = None
@@ -921,6 +1085,10 @@ def run_case(case):
         return rec.out()  # error draws cannot be laid out
 
     rows = [one_row_db(spec, r, f'c18row{r}') for r in range(R)]
+    if style != 'default' or case.get('i', 0) % 5 == 0:
+        split = check_row_split(cx, spec, db, tag, f'index style {style}')
+        if split is not None:
+            rows = split
     # ---- (d) pieces + validation
     n_before = rec.n
     check_pieces(cx, spec, model, tag, 'model', rnd, rows, 2)
@@ -956,6 +1124,10 @@ def run_case(case):
             judged += absorb_log(cx, spec, list(C.LOG), tag, 'model (direct call)', model=model)
     if C.COUNT['post_evaluated'] == 0 and (frames is not None or direct):
         rec.inconc('post-condition on forecast_bisection_one_draw never evaluated')
+    if ok_frames and direct:
+        check_entries_against_direct(cx, spec, frames, direct, entries, tag, f'model (index style {style})')
+    if ok_frames and (case['mode'] == 'directed' or case.get('i', 0) % VALIDATE_FORECAST_EVERY[case.get('tier', 'quick')] == 1) and B <= 1e4:
+        check_validate_forecast(cx, spec, model, db, eps, tag, f'model (index style {style})')
 
     # ---- (b) the library's own pieces at its own forecast, (c) brute force
     if ok_frames:
@@ -1030,6 +1202,12 @@ def finalize(cov, tier):
                 out.append(f'no history (one model object, several data sets) run for variant {v}{o}')
     for k in ('history_steps_after_first', 'history_compared_with_fresh_model', 'history_estimation_results_attached',
               'history_same_row_objects_after_estimation_steps'):
+        if cov.get(k, 0) == 0:
+            out.append(f'monitor / situation never observed: {k}')
+    for st in g.INDEX_STYLES:
+        if cov.get('index_style_' + st, 0) == 0:
+            out.append(f'frame index style never run: {st}')
+    for k in ('row_split_checked', 'forecast_entries_compared_with_per_draw_call', 'validate_forecast_runs', 'index_labels_differ_from_positions'):
         if cov.get(k, 0) == 0:
             out.append(f'monitor / situation never observed: {k}')
     for lab in g.LABELINGS:
